@@ -157,6 +157,25 @@ def r1(ctx, chk):
                     chk.ob(rule, "no %s-locale yield can follow a %s-locale yield" % (a, b), not back,
                            "locales of a later group are tried before an earlier group",
                            key={"function": f.key, "construct": "%s before %s" % (a, b)}, file=f.file, function=f.qual, line=yb.lineno)
+    # within a group the priority is by LOCALE: all spellings of the string (as written, then with the timezone popped) are offered to one
+    # locale before the next locale is looked at - the locale loop is the outer loop, the loop over the spellings the inner one
+    from ..core.ctx import ancestors as _anc
+    n_var = 0
+    for k in ("previous", "requested"):
+        for y in groups[k]:
+            chain = _anc(f.node, y)
+            fors = [a for a in chain if isinstance(a, ast.For)]
+            var_loops = [a for a in fors if isinstance(a.iter, ast.Call) and isinstance(a.iter.func, ast.Name) and a.iter.func.id == "date_strings"]
+            if not var_loops:
+                continue
+            n_var += 1
+            loc_loops = [a for a in fors if ast.unparse(a.target) == ast.unparse(y.value.value)]
+            ok = bool(loc_loops) and fors.index(var_loops[0]) < fors.index(loc_loops[0])      # chain is innermost-first
+            chk.ob(rule, "%s locales: each locale sees every spelling of the string before the next locale is tried" % k, ok,
+                   "the loop over the string spellings encloses the loop over the locales: a lower-priority locale that accepts the string as written "
+                   "(timezone abbreviation read as one of its words) is tried before a higher-priority one that needs the timezone popped",
+                   key={"function": f.key, "construct": "locale-major order (%s)" % k}, file=f.file, function=f.qual, line=y.lineno)
+    chk.floor(rule + ".spellings", n_var, 1, "locale yields under the loop over the string spellings")
     for y in groups["previous"]:
         guarded = any(p and ast.unparse(a_) == "self.try_previous_locales" for t, pol in enclosing_tests(f.node, y) for a_, p in conjuncts(t, pol))
         chk.ob(rule, "previous locales are tried only under try_previous_locales", guarded, "",
